@@ -52,6 +52,8 @@ def _drive(args):
             pan = (('5' * 12 + '4444', '4' + '1' * 15, '12345637890' + '0' * 8)[tid % 3] * 3)[:n]
         if numeric:
             pan = ''.join('123456789'[(i * 7 + tid) % 9] for i in range(min(n, 19)))
+        elif tid in (5, 11):        # a line feed / carriage return inside the element (EBCDIC 0x25 / 0x0d are ordinary bytes)
+            pan = pan[:8] + ('\n' if tid == 5 else '\r') + pan[9:]
         m = {'MTI': '1240', 'DE' + bit: int(pan) if numeric else pan}
         others = [b for b in bc if b not in ('1', bit) and not bc[b].get('field_processor')]
         for b in r.sample(others, 3):
@@ -82,6 +84,10 @@ def run(rep, wd, tier, seed):
         k = r.choice((10, 10, 11, 12, 14, 16, 19, 25, 40))
         s = ''.join(r.choice('0123456789') for _ in range(k)) if tid % 3 else ''.join(chr(r.choice((r.randrange(32, 127), r.randrange(160, 256), 42))) for _ in range(k))
         c = '*' if tid % 4 == 0 else chr(r.choice((r.randrange(33, 127), 35, 88, 0xb7)))
+        if tid % 9 == 7:
+            s = s[:8] + r.choice(('\n', '\r\n', '\t', '\x00', '\\', '.', '$')) + s[9:]
+        if tid % 11 == 3 and tid % 4:
+            c = r.choice(('\\', '.', '$', '^', '\n', '0', ' '))
         if tid % 9 == 4:         # repeated digits: the hidden middle also occurs at the start of the number
             s = (('5' * 12 + '4444', '4' + '1' * 15, '12345637890', '0' * 19)[tid % 4] + '7' * 30)[:max(k, 11)]
         kind, out = c15.call(card.mask, s, c) if tid % 4 else c15.call(card.mask, s)
